@@ -191,6 +191,7 @@ pub fn run(run: &mut Run) {
                 let mut summary = b.clone();
                 if let Some(o) = summary.as_object_mut() {
                     o.remove("conformance_behaviours");
+                    o.remove("conformance_max_n");
                 }
                 run.note("tierB", summary);
                 let v = conformance(run, &b, if quick { 20 } else { 200 });
@@ -212,7 +213,7 @@ pub fn run(run: &mut Run) {
 }
 
 /// one run of the conformance shape on real rayon, abstracted like the model does
-fn real_trace(n: usize, fail: Option<usize>, pool: &rayon::ThreadPool) -> String {
+fn real_trace(n: usize, fail: &[usize], pool: &rayon::ThreadPool) -> String {
     use rayon::prelude::*;
     let next_state = AtomicUsize::new(0);
     let seq = AtomicUsize::new(0);
@@ -225,7 +226,7 @@ fn real_trace(n: usize, fail: Option<usize>, pool: &rayon::ThreadPool) -> String
                 |st, i| {
                     let k = seq.fetch_add(1, Ordering::SeqCst);
                     log.lock().unwrap().push((*st, i, k));
-                    if Some(i) == fail {
+                    if fail.contains(&i) {
                         Err(i)
                     } else {
                         Ok(i)
@@ -252,8 +253,9 @@ fn conformance(run: &mut Run, b: &Value, reps: usize) -> u64 {
     let mut distinct: std::collections::BTreeSet<String> = Default::default();
     let pools: Vec<rayon::ThreadPool> = [1usize, 2, 3, 4, 8, 16].iter().map(|t| rayon::ThreadPoolBuilder::new().num_threads(*t).build().expect("pool")).collect();
     let mut outside = 0;
-    for n in 0..=4usize {
-        for fail in std::iter::once(None).chain((0..n).map(Some)) {
+    let conf_n = b["conformance_max_n"].as_u64().unwrap_or(4) as usize;
+    for n in 0..=conf_n {
+        for fail in failure_plans(n) {
             let key = format!("n={n};fail={fail:?}");
             let Some(set) = b["conformance_behaviours"][&key].as_array() else {
                 run.machinery(format!("tier B results lack the behaviour set for {key}"));
@@ -262,7 +264,7 @@ fn conformance(run: &mut Run, b: &Value, reps: usize) -> u64 {
             let set: std::collections::BTreeSet<&str> = set.iter().filter_map(|x| x.as_str()).collect();
             for pool in &pools {
                 for _ in 0..reps {
-                    let t = real_trace(n, fail, pool);
+                    let t = real_trace(n, &fail, pool);
                     validated += 1;
                     if !set.contains(t.as_str()) {
                         outside += 1;
